@@ -33,6 +33,19 @@ def Full : Proc := ⟨baseReg, fun _ => true, archHere⟩
 
 def sp : Str := [32]
 
+/-- `codes.Code.String()` -/
+def codeName (c : Nat) : Str :=
+  match c with
+  | 0 => b!"OK" | 1 => b!"Canceled" | 2 => b!"Unknown" | 3 => b!"InvalidArgument"
+  | 4 => b!"DeadlineExceeded" | 5 => b!"NotFound" | 6 => b!"AlreadyExists" | 7 => b!"PermissionDenied"
+  | 8 => b!"ResourceExhausted" | 9 => b!"FailedPrecondition" | 10 => b!"Aborted" | 11 => b!"OutOfRange"
+  | 12 => b!"Unimplemented" | 13 => b!"Internal" | 14 => b!"Unavailable" | 15 => b!"DataLoss"
+  | 16 => b!"Unauthenticated"
+  | n => b!"Code(" ++ lit (toString n) ++ b!")"
+
+def statusText (c : Nat) (msg : Str) : Str :=
+  b!"rpc error: code = " ++ codeName c ++ b!" desc = " ++ msg
+
 def leafText : LeafKind → Str
   | .leafError msg => stripMarkers msg
   | .errorString msg => msg
@@ -42,6 +55,8 @@ def leafText : LeafKind → Str
   | .pkgFundamental msg _ => msg
   | .unimplemented msg .. => msg
   | .testErr => b!"test error"
+  | .grpcStatus c msg _ => statusText c msg
+  | .gogoStatus c msg _ => statusText c msg
   | .opaqueLeaf msg .. => msg
   | .user _ msg => msg
 
@@ -214,6 +229,10 @@ def isMethod (c r : Err) : Bool :=
       (!r.isValueKind) && ((r.id = idErrPermission && perm) || (r.id = idErrExist && exist) || (r.id = idErrNotExist && notExist))
   | .leaf _ (.opaqueErrno _ _ _ perm exist notExist _ _) =>
       (!r.isValueKind) && ((r.id = idErrPermission && perm) || (r.id = idErrExist && exist) || (r.id = idErrNotExist && notExist))
+  | .leaf _ (.grpcStatus c m nd) =>          -- (*status.Error).Is: proto.Equal of the two statuses
+      (match r with
+      | .leaf _ (.grpcStatus c' m' nd') => c = c' && m = m' && nd = nd'
+      | _ => false)
   | _ => false
 
 /-- second loop of `Is`: compare marks along the single-cause chain. -/
